@@ -51,6 +51,9 @@ type FuncSpec struct {
 	Extern     bool
 	GhostSets  [][2]*Expr // on return: ghost location := value
 	Before     map[string][]*Clause // "before <callee>: assert e": proved in the caller's state at every call of <callee>
+	// "wakes[label] e": every blocking select in the function's own body has a receive case on the channel whose reference
+	// is e - the event that must be able to end the wait (a sender must not sleep on a queue whose reader has gone)
+	Wakes []*Clause
 	File       string
 	Line       int
 	Used       bool
@@ -103,7 +106,7 @@ func NewSpecDB() *SpecDB {
 var clauseKeywords = map[string]bool{
 	"property": true, "pure": true, "axiom": true, "ghost": true, "global": true, "func": true, "extern": true,
 	"fieldspec": true, "before": true, "ghostset": true, "preserves": true, "crashinv": true, "define": true, "requires": true, "ensures": true, "modifies": true, "loop": true, "canary": true, "flag": true,
-	"inline": true, "trusted": true, "assume": true,
+	"inline": true, "trusted": true, "assume": true, "wakes": true,
 }
 
 var headerRe = regexp.MustCompile(`^func\s*(?:\(\s*(?:(\w+)\s+)?\*?([\w.]+)(?:\[[^\]]*\])?\s*\)\s*)?([\w$.#]+)\s*\(`)
@@ -401,7 +404,7 @@ func (db *SpecDB) LoadFile(file string, defaultPkg string) error {
 			}
 			db.Funcs[key] = fs
 			cur = fs
-		case "requires", "ensures", "canary", "define", "crashinv":
+		case "requires", "ensures", "canary", "define", "crashinv", "wakes":
 			if cur == nil {
 				return errf(rc, "%s outside a func", word)
 			}
@@ -413,6 +416,8 @@ func (db *SpecDB) LoadFile(file string, defaultPkg string) error {
 				return err
 			}
 			switch word {
+			case "wakes":
+				cur.Wakes = append(cur.Wakes, c)
 			case "crashinv":
 				cur.CrashInvs = append(cur.CrashInvs, c)
 			case "define":
